@@ -356,6 +356,31 @@ func (db *DB) InsertRow(table string, vals map[string]any) error {
 	return nil
 }
 
+// DeleteRows removes committed rows directly (harness-side housekeeping, not an SQL statement).
+func (db *DB) DeleteRows(table string, match func(vals map[string]any) bool) int {
+	db.mu.Lock()
+	defer db.mu.Unlock()
+	t := db.tables[table]
+	if t == nil {
+		return 0
+	}
+	n := 0
+	keep := t.Rows[:0:0]
+	for _, r := range t.Rows {
+		m := map[string]any{}
+		for i, c := range t.Cols {
+			m[c.Name] = r.Vals[i]
+		}
+		if match(m) {
+			n++
+			continue
+		}
+		keep = append(keep, r)
+	}
+	t.Rows = keep
+	return n
+}
+
 // ---- value comparison -------------------------------------------------------
 
 // Cmp compares two canonical values of the same kind; NULLs sort last.
